@@ -189,8 +189,17 @@ func (e *Env) Exec(scs []*scen.Scenario, timeout time.Duration) []*Run {
 	if first.World.Cwd != "" {
 		cwd = e.fsPath(first.World.Cwd)
 	}
-	_ = os.MkdirAll(home, 0o755)
-	_ = os.MkdirAll(cwd, 0o755)
+	if first.World.RawPaths {
+		if first.World.Home != "" {
+			home = first.World.Home
+		}
+		if first.World.Cwd != "" {
+			cwd = first.World.Cwd
+		}
+	} else {
+		_ = os.MkdirAll(home, 0o755)
+		_ = os.MkdirAll(cwd, 0o755)
+	}
 	var fileDir string
 	for _, sc := range scs {
 		if sc.World.FileDir != "" {
